@@ -46,7 +46,7 @@ class Sight:
         if focal_plane not in get_args(SightFocalPlane):
             raise ValueError("Wrong focal plane")
 
-        if not scale_factor and focal_plane == 'SFP':
+        if scale_factor is None and focal_plane == 'SFP':
             raise ValueError('Scale_factor required for SFP sights')
 
         if (
@@ -56,7 +56,7 @@ class Sight:
             raise TypeError("type Angular expected for 'h_click_size' and 'v_click_size'")
 
         self.focal_plane = focal_plane
-        self.scale_factor = PreferredUnits.distance(scale_factor or 1)
+        self.scale_factor = PreferredUnits.distance(1 if scale_factor is None else scale_factor)
         self.h_click_size = PreferredUnits.adjustment(h_click_size)
         self.v_click_size = PreferredUnits.adjustment(v_click_size)
 
